@@ -137,8 +137,8 @@ impl Driver for C04 {
                                     "clarabel:solution-returned-for-unbounded-model".to_string()
                                 } else if solver == "clarabel" && truth == "infeasible" && sol.values.iter().any(|v| v.abs() >= 1e6) {
                                     "clarabel:astronomical-point-returned-for-infeasible-model(|x|>=1e6)".to_string()
-                                } else if solver == "tableau" && class.starts_with("tolerance-level") {
-                                    "tableau:tolerance-level-violation(1e-6..1e-3)".to_string()
+                                } else if (solver == "tableau" || solver == "clarabel") && class.starts_with("tolerance-level") {
+                                    format!("{solver}:tolerance-level-violation(1e-6..1e-3)")
                                 } else {
                                     format!("{solver}:{class};truth={truth}")
                                 };
@@ -218,7 +218,7 @@ fn precondition_label(spec: &LmSpec) -> &'static str {
 }
 
 /// Structural precondition of a known finding: a continuous variable whose interval is narrower than
-/// 1e-6 (relative) without being a point - what bound tightening leaves around a point that
+/// 1e-4 (relative) without being a point - what bound tightening leaves around a point that
 /// equality rows determine.
 pub fn near_degenerate_interval(spec: &LmSpec) -> bool {
     spec.vars.iter().any(|(_, t)| {
@@ -227,7 +227,7 @@ pub fn near_degenerate_interval(spec: &LmSpec) -> bool {
             VSpec::NonNeg(lo, Some(hi)) => (*lo, *hi),
             _ => return false,
         };
-        hi > lo && hi - lo < 1e-6 * lo.abs().max(hi.abs()).max(1.0)
+        hi > lo && hi - lo < 1e-4 * lo.abs().max(hi.abs()).max(1.0)
     })
 }
 
@@ -379,10 +379,10 @@ impl Driver for C05 {
                         if tkind == "infeasible" {
                             out.tag(&format!("{solver}:agrees:infeasible"));
                             out.nontrivial(hash_str(&format!("{solver}|{}", serde_json::to_string(spec).unwrap())));
-                        } else if near_degenerate_interval(spec) && solver != "tableau" && solver != "clarabel" {
+                        } else if near_degenerate_interval(spec) && solver != "clarabel" {
                             out.violation(
-                                "microlp:Infeasible-on-feasible-model(variable interval narrower than 1e-6)",
-                                &format!("{solver} reports Infeasible but the model is {tkind}; a continuous variable has an interval narrower than 1e-6"),
+                                &format!("{}:Infeasible-on-feasible-model(variable interval narrower than 1e-4)", if solver == "tableau" { "tableau" } else { "microlp" }),
+                                &format!("{solver} reports Infeasible but the model is {tkind}; a continuous variable has an interval narrower than 1e-4"),
                                 detail(json!("Infeasible")),
                             );
                         } else {
